@@ -155,6 +155,18 @@ def sample_matching(patterns: Sequence[str], rng: random.Random, lo: int, hi: Op
     return None
 
 
+def resize_matching(patterns: Sequence[str], base: str, target: int) -> Optional[str]:
+    """A string of exactly ``target`` code points matching all patterns, obtained by
+    stretching / cutting ``base`` (for length mutants beyond what the sampler reaches)."""
+    cands = [base[:target]]
+    for ch in list(dict.fromkeys(list(base) + list("a0_zA-. x"))):
+        cands += [(base + ch * target)[:target], (ch * target + base)[-target:] if target else "", ch * target]
+    for s in cands:
+        if len(s) == target and all(re.match(p, s) is not None for p in patterns):
+            return s
+    return None
+
+
 def sample_not_matching(pattern: str, others: Sequence[str], base: str, rng: random.Random, lo: int,
                         hi: Optional[int]) -> Optional[str]:
     """A string violating ``pattern`` only: it still matches ``others`` and keeps the length
@@ -301,6 +313,9 @@ class InstanceGen:
         self.mm = mm
         self.rng = rng
         self.astral = astral
+        #: None, "lo" or "hi": length-constrained values take the smallest / largest
+        #: admissible length (boundary instances)
+        self.boundary: Optional[str] = None
         self.height: Dict[str, int] = {}
         self._vc: Dict[Tuple[str, str], VC] = {}
         self._compute_heights()
@@ -368,6 +383,10 @@ class InstanceGen:
             if not sizes:
                 raise ValueError("no admissible list size")
             n = rng.choice(sizes)
+            if self.boundary == "lo":
+                n = min(sizes)
+            elif self.boundary == "hi" and vc.hi is not None:
+                n = max(sizes)
             if n > 0 and self._item_height(t.items) > depth:
                 small = [k for k in sizes if k == 0]
                 if not small:
@@ -412,6 +431,11 @@ class InstanceGen:
                 raise ValueError("no admissible float")
             return float(rng.choice(cands))
         if t.name == "str":
+            if self.boundary is not None and (self.boundary == "lo" or vc.hi is not None):
+                target = vc.lo if self.boundary == "lo" else vc.hi
+                s = sample_matching(vc.patterns, rng, target, target, vc.forbidden, self.astral, tries=40)
+                if s is not None:
+                    return s
             s = sample_matching(vc.patterns, rng, vc.lo, vc.hi, vc.forbidden, self.astral)
             if s is None:
                 raise ValueError("no matching string found")
@@ -423,6 +447,10 @@ class InstanceGen:
                 raise ValueError("no admissible byte length")
             # prefer the upper end: that is where text length and byte length differ most
             n = max(sizes) if rng.random() < 0.5 else rng.choice(sizes)
+            if self.boundary == "lo":
+                n = min(sizes)
+            elif self.boundary == "hi" and vc.hi is not None:
+                n = max(sizes)
             return {"b": bytes(rng.randrange(256) for _ in range(n)).hex()}
         raise ValueError(t.name)
 
@@ -442,13 +470,18 @@ class InstanceGen:
                 props[prop.name] = self.value(t, vc, depth)
         return {"c": cls.name, "p": props}
 
-    def try_instance(self, cls: mmg.Class, depth: int = 3) -> Optional[Dict[str, Any]]:
+    def try_instance(self, cls: mmg.Class, depth: int = 3,
+                     boundary: Optional[str] = None) -> Optional[Dict[str, Any]]:
         if self.height.get(cls.name, INF) > depth + 1:
             return None
+        self.boundary = boundary
         try:
-            return self.instance(cls, depth, p_optional=self.rng.choice([0.2, 0.5, 0.9]))
+            p_opt = 1.0 if boundary is not None else self.rng.choice([0.2, 0.5, 0.9])
+            return self.instance(cls, depth, p_optional=p_opt)
         except ValueError:
             return None
+        finally:
+            self.boundary = None
 
 
 # =====================================================================================
@@ -491,7 +524,7 @@ def _prim_of(mm: mmg.MetaModel, t: Any) -> Optional[str]:
 
 
 def constraint_mutants(mm: mmg.MetaModel, inst: Dict[str, Any], rng: random.Random,
-                       limit: int = 8) -> List[Dict[str, Any]]:
+                       limit: int = 8, ig: Optional["InstanceGen"] = None) -> List[Dict[str, Any]]:
     """Copies of ``inst`` in which exactly one value breaks one recognised constraint.
     Each mutant: {"inst", "kind", "origin", "path", "expect_reject": bool, "note"}.
     ``expect_reject`` is False only for the documented exclusion (byte lengths that the
@@ -524,22 +557,28 @@ def constraint_mutants(mm: mmg.MetaModel, inst: Dict[str, Any], rng: random.Rand
         if is_list:
             if vc.rec_lo is not None and vc.rec_lo >= 1:
                 put(list(cur_container[: vc.rec_lo - 1]), "minItems", vc.origin_lo)
-            if vc.rec_hi is not None and cur_container:
+            if vc.rec_hi is not None and (cur_container or ig is not None):
                 items = list(cur_container)
-                while len(items) <= vc.rec_hi:
-                    items.append(copy.deepcopy(rng.choice(cur_container)))
-                put(items, "maxItems", vc.origin_hi)
+                try:
+                    while len(items) <= vc.rec_hi:
+                        if cur_container:
+                            items.append(copy.deepcopy(rng.choice(cur_container)))
+                        else:
+                            items.append(ig.value(t.items, type_vc(mm, t.items), 2))
+                    put(items, "maxItems", vc.origin_hi)
+                except ValueError:
+                    pass
         elif prim == "str":
             if vc.rec_lo is not None and vc.rec_lo >= 1:
                 s = sample_matching(vc.patterns, rng, vc.rec_lo - 1, vc.rec_lo - 1, tries=25)
-                if s is None and not vc.patterns:
-                    s = "a" * (vc.rec_lo - 1)
+                if s is None:
+                    s = resize_matching(vc.patterns, cur_container, vc.rec_lo - 1)
                 if s is not None:
                     put(s, "minLength", vc.origin_lo)
             if vc.rec_hi is not None:
                 s = sample_matching(vc.patterns, rng, vc.rec_hi + 1, vc.rec_hi + 1, tries=25)
-                if s is None and not vc.patterns:
-                    s = "a" * (vc.rec_hi + 1)
+                if s is None:
+                    s = resize_matching(vc.patterns, cur_container, vc.rec_hi + 1)
                 if s is not None:
                     put(s, "maxLength", vc.origin_hi)
             for pat in vc.rec_patterns:
